@@ -605,7 +605,7 @@ func c13Doms(thorough bool) c13Domains {
 			{1, 1, 1, 0, 0, 0, 0, 0}, {2262, 4, 11, 23, 47, 16, 0, 0},
 		},
 		bools:  []bool{true, false},
-		intStr: []string{"", " ", "abc", "-", "0", "7", "-7", "007", "+7", " 7", "7 ", "1.5", "1e3", "0x10", "1_000", "9223372036854775807", "-9223372036854775808", "9223372036854775808", "-9223372036854775809", "99999999999999999999", "٣", "７", "--7", "7a"},
+		intStr: []string{"", " ", "abc", "-", "0", "7", "-7", "007", "010", "08", "-010", "0019", "00", "-0", "0b11", "0o17", "+7", " 7", "7 ", "1.5", "1e3", "0x10", "1_000", "9223372036854775807", "-9223372036854775808", "9223372036854775808", "-9223372036854775809", "99999999999999999999", "٣", "７", "--7", "7a"},
 		fltStr: []string{"", " ", "abc", ".", "-", "0", "7", "-7", "1.5", "-0.5", "0.25", "1e3", "NaN", "Inf", "-Inf", "+1.5", " 1.5", "1.5 ", "1,5", ".5", "5.", "0x1p-2", "1e400", "1.5.5", "٣", "123456789012345"},
 	}
 	if thorough {
